@@ -257,7 +257,7 @@ impl Prop for C09 {
         "C09"
     }
     fn rule(&self) -> &'static str {
-        "histories (<= 40 steps) over insert / insert_by_id / remove / remove_by_id / entry().or_insert(_with) / has_value(_raw) / get_mut(_raw) / fetch, fetch_mut, try_fetch(_mut), try_fetch(_mut)_by_id / setup::<Read|WriteExpect|Option<Read>> / exec (Write<T>, and a hand-written SystemData that logs its setup and fetch calls: exec must be exactly setup then fetch, setup exactly setup, whether or not the data declares the resource and whether or not it exists) over 8 value types (zero-sized, 1 byte, 8 bytes, 24 bytes without drop glue, heap-owning, 512 bytes, 5000 bytes, 256-byte aligned) x 3 dynamic ids, 1/4 of the id-taking calls with a type argument that disagrees with the id; oracle: reference BTreeMap<(type, dynamic id), value id>; every result equal; a mismatching id-taking call panics and leaves map and live set unchanged; after every step has_value_raw, the stored value's TypeId, its identity and payload pattern agree with the reference for all 24 slots, and the tracker's live set equals the reference's values (no leak, no early or double drop); after dropping the world nothing is alive; non-trivial = >= 1 mismatching call, >= 1 replace and >= 1 remove of a present key; distinct = history hash"
+        "histories (<= 40 steps) over insert / insert_by_id / remove / remove_by_id / entry().or_insert(_with) / has_value(_raw) / get_mut(_raw) / fetch, fetch_mut, try_fetch(_mut), try_fetch(_mut)_by_id / setup::<Read|WriteExpect|Option<Read>> / exec (Write<T>, and a hand-written SystemData that logs its setup and fetch calls: exec must be exactly setup then fetch, setup exactly setup, whether or not the data declares the resource and whether or not it exists) over 8 value types (zero-sized, 1 byte, 8 bytes, 24 bytes without drop glue, heap-owning, 512 bytes, 5000 bytes, 256-byte aligned) x 5 dynamic ids (0, 2^32, 2^32 - 1, u64::MAX, u64::MAX - 1), 1/4 of the id-taking calls with a type argument that disagrees with the id; oracle: reference BTreeMap<(type, dynamic id), value id>; every result equal; a mismatching id-taking call panics and leaves map and live set unchanged; after every step has_value_raw, the stored value's TypeId, its identity and payload pattern agree with the reference for all 40 slots, and the tracker's live set equals the reference's values (no leak, no early or double drop); after dropping the world nothing is alive; non-trivial = >= 1 mismatching call, >= 1 replace and >= 1 remove of a present key; distinct = history hash"
     }
     fn stream_len(&self) -> usize {
         200
